@@ -17,7 +17,9 @@ open Dasp Dasp.Arith
 
 variable {γ α δ : Type} [Arith γ] [Arith α]
 
-/-- `calc_gain` (mod.rs:38-44): `if n_frames == 0.0 { 0.0 } else { powf32(E, -1.0 / n_frames) }` -/
+/-- `calc_gain` (mod.rs:38-44): `if n_frames == 0.0 { 0.0 } else { powf32(E, -1.0 / n_frames) }`.
+    `==` is the equality of the float format (`Arith.beq`): `-0.0 == 0.0`, so a time of `-0.0` takes the
+    guard like `+0.0` and never reaches `-1.0 / -0.0 = +inf`. -/
 def calcGain (expO : γ → γ) (nFrames : γ) : γ :=
   if beq nFrames zero then zero else expO (div (neg one) nFrames)
 
